@@ -18,7 +18,8 @@ Parts:
 2. the structural invariant `Struct` of every accepted board; what `is_sane` itself checks of it;
 3. acceptance soundness (kings, men, castling rights, en-passant mark, non-mover not in check);
 4. capacity of the 18-slot move list, and application of generated moves;
-5. acceptance completeness — stated (`C07_accept_complete_full`), not proved here.
+5. acceptance completeness — stated (`C07_accept_complete_full`) and reduced to the two check-detection
+   clauses of `is_sane` here; those, and (e) of part 3 on the rules, are proved in `Props/C07Full.lean`.
 -/
 namespace Chess.Props
 open Chess Chess.GameExamples
@@ -135,7 +136,8 @@ theorem C07_ep_refers_to_pawn {T : Tables} {bd : Builder} {b : Board} (h : Board
   exact ⟨(tryFrom_facts h).ep_pawn (tryFrom_struct h) q hq, h1, fourthRank_spec _ _ h1, h2⟩
 
 /-- (e) full statement: the side not to move is not in check (rules of `Spec/Rules.lean`).  Its proof needs
-the geometric reading of `update_pin_info`'s check detection. -/
+the geometric reading of `update_pin_info`'s check detection: `C07_nonmover_not_in_check_holds` in
+`Props/C07Full.lean`. -/
 def C07_nonmover_not_in_check_full : Prop :=
   ∀ (T : Tables), TablesOK T → ∀ (bd : Builder) (b : Board), Board.tryFrom T bd = some b →
     inCheck b.abs b.stm.other = false
@@ -222,7 +224,8 @@ theorem C07_make_generated_no_panic {T : Tables} {bd : Builder} {b : Board} (h :
 
 /-- every valid position is accepted, and the accepted board describes it (with the en-passant mark kept
 under the library's recording policy `norm`).  Proved below up to the two check-detection clauses of
-`is_sane` (`C07_accept_complete_partial`, `C07_accept_complete_of_check_clauses`). -/
+`is_sane` (`C07_accept_complete_partial`, `C07_accept_complete_of_check_clauses`); in full as
+`C07_accept_complete` in `Props/C07Full.lean`. -/
 def C07_accept_complete_full : Prop :=
   ∀ (T : Tables), TablesOK T → ∀ p : Pos, Valid p = true →
     ∃ b, Board.tryFrom T p.toBuilder = some b ∧
